@@ -1,7 +1,304 @@
+import MythVerif.Model.Env
+import MythVerif.Model.CpuList
+import MythVerif.Model.InitOnce
 import Driver.Util
-/-! `drv_env`: stub, to be filled in -/
+/-! `drv_env`: the configuration readers, the CPU-list parser and the init-once transition system
+    behind the line protocols of harness/env_unit.c (pure functions), harness/init_proc.c
+    (sequential init/fini histories) and harness/init_conc.c (trace acceptor for controlled
+    interleavings of concurrent initialisers). -/
 namespace Driver.Env
+open MythVerif MythVerif.Env MythVerif.CpuList MythVerif.InitOnce
+
+def hexVal (c : Char) : Nat :=
+  if '0' ≤ c ∧ c ≤ '9' then c.toNat - 48
+  else if 'a' ≤ c ∧ c ≤ 'f' then c.toNat - 87
+  else if 'A' ≤ c ∧ c ≤ 'F' then c.toNat - 55 else 0
+
+def unhex : List Char → List Char
+  | a :: b :: r => Char.ofNat (hexVal a * 16 + hexVal b) :: unhex r
+  | _ => []
+
+/-- `-` = unset, `=<hex>` = set -/
+def dec (s : String) : Option CStr :=
+  match s.toList with
+  | '=' :: r => some (unhex r)
+  | _ => none
+
+def csv (l : List Int) : String := if l.isEmpty then "-" else ",".intercalate (l.map toString)
+
+def showDiag : Option Diag → String
+  | none => "none"
+  | some d =>
+    let k := match d.kind with
+      | .expectedDigit => "digit"
+      | .junk => "junk"
+      | .tooMany => "toomany"
+    s!"{k}:{d.okPos}:{d.pos}"
+
+structure DSt where
+  ncpu : Int := 1
+  avail : Option Avail := none
+  lts : St := InitOnce.init
+  k : Nat := 0                 -- number of participants of init_conc
+  bad : Bool := false
+
+def b2n (b : Bool) : Nat := if b then 1 else 0
+
+def parseMask (s : String) : Nat → Bool :=
+  let l := (s.splitOn ",").filterMap (·.toNat?)
+  fun c => l.contains c
+
+/-- run thread `t`'s pending call to completion (a sequential caller: at most 8 accesses) -/
+def runCall (ncpu : Int) (s : St) (t : Tid) : Nat → St
+  | 0 => s
+  | n + 1 => if s.pc t = .idle then s else
+    match InitOnce.step ncpu s (.step t) with
+    | some s' => runCall ncpu s' t n
+    | none => s
+
+def runFini (ncpu : Int) (s : St) : Nat → St
+  | 0 => s
+  | n + 1 => if s.fin = .idle then s else
+    match InitOnce.step ncpu s .finStep with
+    | some s' => runFini ncpu s' n
+    | none => s
+
+def reallyTotal (s : St) : Nat := (List.range (s.epoch + 1)).foldl (fun a e => a + s.inits e) 0
+
+def osThreads (s : St) : Nat := if s.workers.length = 0 then 1 else s.workers.length
+
+def summary (s : St) : String :=
+  s!"rc=1 nw={s.gattr.nWorkers} stk={s.gattr.stacksize} really={reallyTotal s} threads={osThreads s}"
+
+def setEnvVar (e : Environ) (name : String) (v : Option CStr) : Option Environ :=
+  match name with
+  | "MYTH_DEF_STKSIZE" => some { e with stk := v }
+  | "MYTH_DEF_GUARDSIZE" => some { e with guard := v }
+  | "MYTH_NUM_WORKERS" => some { e with nw := v }
+  | "MYTH_WORKER_NUM" => some { e with oldNw := v }
+  | "MYTH_BIND_WORKERS" => some { e with bind := v }
+  | "MYTH_CHILD_FIRST" => some { e with childFirst := v }
+  | "MYTH_CPU_LIST" => some e          -- read by myth_get_available_cpus only (binding)
+  | _ => none
+
+def pcName : PC → String
+  | .idle => "idle" | .e0 => "e0" | .i0 => "i0" | .i1 => "i1" | .i2 => "i2" | .i3 => "i3" | .i4 => "i4"
+def fpcName : FPC → String
+  | .idle => "idle" | .f0 => "f0" | .f1 => "f1" | .f2 => "f2" | .f3 => "f3" | .f4 => "f4"
+
+/-- accept one event of init_conc's trace -/
+def accept (d : DSt) (w : List String) : DSt × String :=
+  let s := d.lts
+  let mism (msg : String) : DSt × String := ({ d with bad := true }, "MISMATCH " ++ msg)
+  let adv (l : Label) (chk : St → Option String) : DSt × String :=
+    match InitOnce.step d.ncpu s l with
+    | none => mism "model step not enabled"
+    | some s' => match chk s' with
+      | none => ({ d with lts := s' }, "ok")
+      | some m => mism m
+  match w with
+  | ["ev", p, "call", kind, n] =>
+    match p.toNat?, n.toInt? with
+    | some p, some n =>
+      if kind = "implicit" then adv (.callEnsure p) (fun _ => none)
+      else if kind = "init" then adv (.callInit p none) (fun _ => none)
+      else
+        let a : GAttr := { gattrDefault s.environ d.ncpu with nWorkers := n }
+        adv (.callInit p (some a)) (fun _ => none)
+    | _, _ => mism "bad event"
+  | ["ev", p, pt, v] =>
+    match p.toNat?, v.toInt? with
+    | some p, some v =>
+      let pc := s.pc p
+      match pt with
+      | "fast" =>
+        if pc = .i0 ∧ s.state = sInitialized then adv (.step p) (fun _ => none)
+        else mism s!"fast: model pc={pcName pc} state={s.state}"
+      | "slow" =>
+        -- an implicit call reads twice (inline test, then the body) inside one segment
+        let s1 := if pc = .e0 then (InitOnce.step d.ncpu s (.step p)).getD s else s
+        if s1.pc p = .i0 ∧ s1.state ≠ sInitialized then
+          match InitOnce.step d.ncpu s1 (.step p) with
+          | some s2 => ({ d with lts := s2 }, "ok")
+          | none => mism "slow: not enabled"
+        else mism s!"slow: model pc={pcName pc} state={s.state}"
+      | "cas" =>
+        if pc = .i1 then adv (.step p) (fun s' =>
+          if (s'.pc p = .i3) = (v = 1) then none else some s!"cas: impl won={v}, model pc after={pcName (s'.pc p)}")
+        else mism s!"cas: model pc={pcName pc}"
+      | "wait" =>
+        if pc = .i2 ∧ s.state ≠ sInitialized then adv (.step p) (fun _ => none)
+        else mism s!"wait: model pc={pcName pc} state={s.state}"
+      | "waited" =>
+        if pc = .i2 ∧ s.state = sInitialized then adv (.step p) (fun _ => none)
+        else mism s!"waited: model pc={pcName pc} state={s.state}"
+      | "really" =>
+        if pc = .i3 then adv (.step p) (fun s' =>
+          if s'.gattr.nWorkers = v then none else some s!"really: impl nw={v}, model nw={s'.gattr.nWorkers}")
+        else mism s!"really: model pc={pcName pc}"
+      | "started" =>
+        if pc = .i4 ∧ s.gattr.nWorkers = v ∧ s.workers.length = v.toNat then (d, "ok")
+        else mism s!"started: model pc={pcName pc} nw={s.gattr.nWorkers}"
+      | "done" =>
+        if pc = .i4 then adv (.step p) (fun s' => if s'.state = sInitialized then none else some "done: state")
+        else mism s!"done: model pc={pcName pc}"
+      | "ret" =>
+        -- implicit call on an initialised library: the inline test returns without any event
+        if pc = .e0 ∧ s.state = sInitialized then adv (.step p) (fun _ => none)
+        else if pc = .idle then (d, "ok")
+        else mism s!"ret: model pc={pcName pc} state={s.state}"
+      | _ => mism "unknown point"
+    | _, _ => mism "bad event"
+  | ["fev", pt, v] =>
+    match v.toInt? with
+    | some v =>
+      let f := s.fin
+      match pt with
+      | "call" => adv .callFini (fun _ => none)
+      | "noop" => if f = .f0 ∧ s.state = sUninit then adv .finStep (fun _ => none) else mism s!"noop: fin={fpcName f}"
+      | "begin" => if f = .f0 ∧ s.state ≠ sUninit then adv .finStep (fun _ => none) else mism s!"begin: fin={fpcName f}"
+      | "wait" => if f = .f1 ∧ s.state ≠ sInitialized then adv .finStep (fun _ => none) else mism s!"fwait: fin={fpcName f}"
+      | "waited" =>
+        -- v = the rank the finaliser runs on: the main user thread may have migrated
+        if f = .f1 ∧ s.state = sInitialized then
+          match InitOnce.step d.ncpu s (.migrate v.toNat) with
+          | some s1 => match InitOnce.step d.ncpu s1 .finStep with
+            | some s2 => ({ d with lts := s2 }, "ok")
+            | none => mism "waited: not enabled"
+          | none => mism s!"waited: rank {v} is not a running worker of the model"
+        else mism s!"waited: fin={fpcName f} state={s.state}"
+      | "stopped" =>
+        -- f2 (back to worker 0) and f3 (joins) happen inside one segment
+        if f = .f2 then
+          match InitOnce.step d.ncpu s .finStep with
+          | some s1 =>
+            if s1.mainOn = v.toNat ∧ v = 0 then
+              match InitOnce.step d.ncpu s1 .finStep with
+              | some s2 => ({ d with lts := s2 }, "ok")
+              | none => mism "stopped: not enabled"
+            else mism s!"stopped: impl rank={v}, model rank={s1.mainOn}"
+          | none => mism "stopped: not enabled"
+        else mism s!"stopped: fin={fpcName f}"
+      | "done" => if f = .f4 then adv .finStep (fun s' => if s'.state = sUninit then none else some "fdone: state") else mism s!"fdone: fin={fpcName f}"
+      | "ret" => if f = .idle then (d, "ok") else mism s!"fret: fin={fpcName f}"
+      | _ => mism "unknown fini point"
+    | none => mism "bad event"
+  | _ => mism "bad event"
+
+def step (d : DSt) (line : String) : DSt × String :=
+  let w := Driver.words line
+  match w with
+  | ["consts"] =>
+    (d, s!"consts defStack={defStack} defGuard={defGuard} defBind={defBind} defChildFirst={defChildFirst} nMaxCpus={nMaxCpus} uninit={sUninit} initializing={sInitializing} initialized={sInitialized} randMax={(2:Nat)^31 - 1}")
+  | ["atoi", s] => (d, s!"atoi {match dec s with | some v => atoi v | none => 0}")
+  | ["stk", s] => (d, s!"stk {stacksize (dec s)}")
+  | ["stkpinned", s] => (d, s!"stk {stacksizePinned (dec s)}")
+  | ["guard", s] => (d, s!"guard {guardsize (dec s)}")
+  | ["nw", s, o, n] =>
+    match n.toInt? with
+    | some n => let r := numWorkers (dec s) (dec o) n; (d, s!"nw {r.1} warn={b2n r.2}")
+    | none => (d, "bad-op")
+  | ["bind", s] => (d, s!"bind {bindWorkers (dec s)} on={b2n (bindingOn (dec s))}")
+  | ["cf", s] => (d, s!"cf {childFirst (dec s)}")
+  | ["cpulist", cap, s] =>
+    match cap.toNat? with
+    | some cap =>
+      match parseCpuList false (dec s) cap with
+      | .ret r wr dg => (d, s!"ret={r} written={csv wr} diag={showDiag dg}")
+      | .abort => (d, "abort")
+      | .overrun => (d, "overrun")
+    | none => (d, "bad-op")
+  | ["cpulistpinned", cap, s] =>
+    match cap.toNat? with
+    | some cap =>
+      match parseCpuList true (dec s) cap with
+      | .ret r wr dg => (d, s!"ret={r} written={csv wr} diag={showDiag dg}")
+      | .abort => (d, "abort")
+      | .overrun => (d, "overrun")
+    | none => (d, "bad-op")
+  | ["avail", n, mask, s] =>
+    match n.toNat? with
+    | some n =>
+      match availableCpus false (dec s) n (parseMask mask) with
+      | some a => ({ d with avail := some a },
+          s!"avail n={a.workerCpu.length} cpus={csv a.workerCpu} malformed={b2n a.malformed} nocpus={b2n a.noCpus}")
+      | none => (d, "abort")
+    | none => (d, "bad-op")
+  | ["wcpu", r] =>
+    match r.toNat?, d.avail with
+    | some r, some a => (d, s!"wcpu {workerCpu a r}")
+    | _, _ => (d, "bad-op")
+  | ["victim", n, rank, _seed, raw] =>
+    match n.toInt?, rank.toInt?, raw.toNat? with
+    | some n, some rank, some raw =>
+      (d, s!"victim raw={raw} idx={match victim n rank raw with | some i => i | none => -1}")
+    | _, _, _ => (d, "bad-op")
+  -- sequential histories (harness/init_proc.c) ------------------------------------------------
+  | ["ncpu", n] =>
+    match n.toInt? with
+    | some n => ({ d with ncpu := n }, "ok")
+    | none => (d, "bad-op")
+  | ["setenv", name, v] =>
+    match setEnvVar d.lts.environ name (dec v) with
+    | some e => ({ d with lts := { d.lts with environ := e } }, "ok")
+    | none => (d, "bad-op")
+  | "init_ex" :: n :: rest =>
+    match n.toInt? with
+    | some n =>
+      let a0 : GAttr := { gattrDefault d.lts.environ d.ncpu with nWorkers := n }
+      let a : GAttr := match rest with
+        | [stk] => { a0 with stacksize := stk.toNat?.getD a0.stacksize }
+        | _ => a0
+      match InitOnce.step d.ncpu d.lts (.callInit 0 (some a)) with
+      | some s1 => let s2 := runCall d.ncpu s1 0 8; ({ d with lts := s2 }, "init " ++ summary s2)
+      | none => (d, "not-enabled")
+    | none => (d, "bad-op")
+  | ["init"] =>
+    match InitOnce.step d.ncpu d.lts (.callInit 0 none) with
+    | some s1 => let s2 := runCall d.ncpu s1 0 8; ({ d with lts := s2 }, "init " ++ summary s2)
+    | none => (d, "not-enabled")
+  | ["implicit"] =>
+    match InitOnce.step d.ncpu d.lts (.callEnsure 0) with
+    | some s1 => let s2 := runCall d.ncpu s1 0 8; ({ d with lts := s2 }, "init " ++ summary s2)
+    | none => (d, "not-enabled")
+  | ["setglobal", n] =>
+    match n.toInt? with
+    | some n =>
+      match InitOnce.step d.ncpu d.lts (.setGlobal n) with
+      | some s1 => ({ d with lts := s1 }, "ok")
+      | none => (d, "not-enabled")
+    | none => (d, "bad-op")
+  | ["ranks", t] =>
+    -- every thread must report the model's worker count and a rank in [0, n)
+    match t.toNat? with
+    | some t => (d, s!"ranks n={t + 1} inrange=1 nwsame=1 nw={d.lts.gattr.nWorkers}")
+    | none => (d, "bad-op")
+  | ["migrate"] => (d, "migrate done")
+  | ["fini"] =>
+    match InitOnce.step d.ncpu d.lts .callFini with
+    | some s1 =>
+      let was := s1.state
+      let s2 := runFini d.ncpu s1 8
+      ({ d with lts := s2 }, s!"fini really={reallyTotal s2} threads={osThreads s2} stoprank={if was = sUninit then -1 else (0 : Int)}")
+    | none => (d, "not-enabled")
+  -- controlled interleavings (harness/init_conc.c) -------------------------------------------
+  | ["threads", k] =>
+    match k.toNat? with
+    | some k => ({ d with k := k }, "ok")
+    | none => (d, "bad-op")
+  | "ev" :: _ => accept d w
+  | "fev" :: _ => accept d w
+  | ["end"] =>
+    let s := d.lts
+    (d, s!"end nw={s.gattr.nWorkers} really={reallyTotal s} extra={if s.workers.length = 0 then 0 else s.workers.length - 1} state={s.state}")
+  | _ => (d, "bad-op")
+
 def run (_args : List String) : IO UInt32 := do
-  IO.eprintln "drv_env: not implemented"
-  return 2
+  let stdin ← IO.getStdin
+  let _ ← Driver.forLines stdin ({} : DSt) fun s line => do
+    let (s', out) := step s line
+    IO.println out
+    pure s'
+  return 0
+
 end Driver.Env
